@@ -207,6 +207,7 @@ def run_c15(ch: Choices, params: dict, known: dict) -> dict:
     ib = (ia + 1 + ch.choose(len(pats) - 1, "allocB")) % len(pats)
     between = ch.choose(3, "between")  # 0 nothing, 1 another problem solved, 2 another problem left half enumerated
     reuse = ch.chance(1, 2, "reuse_problem")
+    staged = (not reuse) and len(model["props"]) >= 1 and ch.chance(1, 2, "staged")
     with seams.dirty_allocator(pats[ia]):
         run_one(Choices(seed=sub), "C15", model, cfg, mode, "native", ref, out)
     a = out.pop("_last")
@@ -222,14 +223,32 @@ def run_c15(ch: Choices, params: dict, known: dict) -> dict:
             out["probes"]["other_problem_in_between"] += 1
     if not V:
         with seams.dirty_allocator(pats[ib]):
-            run_one(Choices(seed=sub), "C15", model, cfg, mode, "native", ref, out, problem=a["problem"] if reuse else None)
+            pb = a["problem"] if reuse else None
+            if staged:
+                # the problem object met a solver before it was complete: variables and the first j constraints
+                # (possibly none), a solver constructed on it (and possibly asked for a solution), then the other
+                # constraints are posted - "constructing a solver does not change the meaning of the problem object"
+                j = ch.choose(len(model["props"]), "staged.j")
+                pb = nucsio.build_problem(dict(model, props=model["props"][:j]))
+                try:
+                    s0 = nucsio.build_solver(pb, gen.DEFAULT_CONFIG if ch.chance(1, 2, "staged.default") else cfg)
+                    if ch.chance(1, 2, "staged.run"):
+                        next(s0.solve(), None)
+                except Exception as e:
+                    if classify_exception(e) == "harness":
+                        raise
+                for vs, alg, prm in model["props"][j:]:
+                    pb.add_propagator((list(vs), nucsio.ALG_INDEX[alg], list(prm)))
+                out["probes"]["problem_completed_after_a_first_solver"] += 1
+                out["probes"]["first_solver_on_a_problem_without_constraints"] += 1 if j == 0 else 0
+            run_one(Choices(seed=sub), "C15", model, cfg, mode, "native", ref, out, problem=pb)
         b = out.pop("_last")
         out["faults"]["dirty-allocator"] += 2
         if reuse:
             out["probes"]["problem_object_reused"] += 1
         ctx = (f"[{out['model']} cfg={gen.cfg_str(cfg)} {mode}] solved twice in one interpreter "
                f"(never-written memory {pats[ia]} then {pats[ib]}, in between: {['nothing', 'another problem solved', 'another problem left half enumerated'][between]}, "
-               f"problem object {'reused' if reuse else 'rebuilt'}): ")
+               f"problem object {'reused' if reuse else ('completed after a first solver had been constructed on it' if staged else 'rebuilt')}): ")
         for what in ("sols", "result", "stats", "crashed"):
             if a.get(what) != b.get(what):
                 if what == "stats" and a.get("stats") and b.get("stats"):
